@@ -579,6 +579,32 @@ def rule_R17(text, applied):
     return text
 
 
+def rule_R16(text, applied):
+    """HashMap entry API -> get/insert (documented equivalence of std::collections::hash_map::Entry):
+      `match M.entry(K) {`                  -> `match M.get(&K).copied() {`
+      `Entry::Occupied(E) => *E.get(),`     -> `Some(v_) => v_,`
+      `Entry::Vacant(E) =>`                 -> `None =>`
+      `E.insert(X);`                        -> `M.insert(K, X);`
+    K must be Copy (it is used twice); a shape outside these four patterns is refused."""
+    m_text = mask(text)
+    m = re.search(r"\bmatch\s+((?:\w+\.)*\w+)\.entry\((\w+)\)\s*\{", m_text)
+    if not m:
+        raise ExtractError("R16: `match M.entry(K) {` not found (lost anchor)")
+    mp, key = m.group(1), m.group(2)
+    text = text[:m.start()] + f"match {mp}.get(&{key}).copied() {{" + text[m.end():]
+    t, n1 = _sub_masked(text, r"Entry::Occupied\((\w+)\)\s*=>\s*\*\s*\1\.get\(\)", lambda mm, s: "Some(v_) => v_")
+    m2 = re.search(r"Entry::Vacant\((\w+)\)\s*=>", mask(t))
+    if n1 != 1 or not m2:
+        raise ExtractError("R16: Occupied/Vacant arms are not in the expected shape (outside the subset)")
+    ev = m2.group(1)
+    t = t[:m2.start()] + "None =>" + t[m2.end():]
+    t, n3 = _sub_masked(t, r"\b" + re.escape(ev) + r"\.insert\(", lambda mm, s: f"{mp}.insert({key}, ")
+    if n3 != 1:
+        raise ExtractError("R16: vacant entry is not inserted exactly once (outside the subset)")
+    applied.append(f"R16({mp}.entry({key}))")
+    return t
+
+
 def rule_R7stack(text, applied):
     """`for D in E.stack() {` (DecisionTracker::stack() = `self.stack.iter().copied()`) -> the R7ref form over the
     field: `for &D in &E.stack {` (then rewritten by R7ref)."""
@@ -1064,7 +1090,7 @@ RULES = {
     "R1": rule_R1, "R2": rule_R2, "R2ref": rule_R2ref, "R3": rule_R3, "R4": rule_R4, "R5": rule_R5,
     "R8max": rule_R8max, "R8cmpmax": rule_R8cmpmax, "R8resize_none": rule_R8resize_none, "R9": rule_R9, "R8position": rule_R8position, "R8rotate": rule_R8rotate, "R12refcell": rule_R12refcell,
     "R8slice": rule_R8slice, "R7iter": rule_R7iter, "R8bitget": rule_R8bitget, "R8contains": rule_R8contains, "R12cell": rule_R12cell, "R8resize_veccap": rule_R8resize_veccap, "R8collectid": rule_R8collectid, "R8index": rule_R8index, "subst": rule_subst,
-    "R7ref": rule_R7ref, "R14q": rule_R14q, "R7stack": rule_R7stack, "R18": rule_R18, "R8frozenindex": rule_R8frozenindex, "R7range": rule_R7range, "R14err": rule_R14err, "R7array": rule_R7array, "R17": rule_R17,
+    "R7ref": rule_R7ref, "R16": rule_R16, "R14q": rule_R14q, "R7stack": rule_R7stack, "R18": rule_R18, "R8frozenindex": rule_R8frozenindex, "R7range": rule_R7range, "R14err": rule_R14err, "R7array": rule_R7array, "R17": rule_R17,
     "R13": rule_R13, "R14": rule_R14, "R2set": rule_R2set, "R8first": rule_R8first, "R7": rule_R7, "R10": rule_R10, "R11": rule_R11,
 }
 ALWAYS = [rule_vis, rule_tracing, rule_const]
